@@ -169,6 +169,7 @@ TRACE_MODULE["C18"] = "Trace_C18"
 def c18(ck):
     binary = vlib.build_harness()
     ck.add_tlc(vlib.mc("MC_FileMode", "MC_FileMode.cfg", ck.scratch, workers=4))
+    vlib.apalache("LayoutInd", "ModeAlgebra", ck.scratch)      # type / permission split recombines (SMT, all 16-bit words)
     def bump(field):
         return lambda e: e[field].__setitem__(7, e[field][7] ^ 1)
     def widen(e):
@@ -458,6 +459,9 @@ def c16(ck):
     binary = vlib.build_harness()
     thorough = ck.tier == "thorough"
     ck.add_tlc(vlib.mc("MC_Layout", "MC_Layout.cfg", ck.scratch, workers=4))
+    # the same algebra for ALL entry counts and store sizes (unbounded integers), discharged by Apalache
+    vlib.apalache("LayoutInd", "Inv", ck.scratch)
+    ck.extra["unbounded_lemma"] = "LayoutInd!Inv (Increasing, Aligned, Unique padding, mode-word algebra) discharged by Apalache for all naturals"
     events = run_pkg(ck, binary, ["--families", "assets,built,gen,mutants", "--n", 300 if thorough else 24,
                                   "--mutants", 20000 if thorough else 600, "--gets", "0",
                                   "--maxbytes", 400000 if thorough else 65536],
@@ -586,6 +590,44 @@ def c03(ck):
 TRACE_MODULE["C02"] = "Trace_C02"
 
 
+def lifecycle_walks(ck, binary, mode, nwalks):
+    """Life-cycle walks (spec/Rpm.tla): sign / clear / re-parse / tamper sequences on real packages; every
+    observation is replayed through the composed state machine, in the direction `mode`'s property demands."""
+    ck.add_tlc(vlib.mc("MC_Rpm", "MC_Rpm.cfg", ck.scratch, workers=4))
+    wtr = ck.scratch / f"walks_{mode}.ndjson"
+    vlib.run_harness(binary, ["walk", "--out", wtr, "--seed", ck.seed, "--walks", nwalks], timeout=6000)
+    wev = read_ndjson(wtr)
+    wid = {e["id"]: e for e in wev}
+    weps = episodes(wev)
+    # canary: an observation that contradicts the model in the demanded direction
+    def pick(ep):
+        for i, x in enumerate(ep):
+            if x["event"] != "Walk":
+                continue
+            o = x["obs"]
+            if mode == "C02" and not o["digests_ok"]:
+                return i, lambda y: y["obs"].__setitem__("digests_ok", True)
+            if mode == "C08" and o["digests_ok"]:
+                return i, lambda y: y["obs"].__setitem__("digests_ok", False)
+            if mode == "C10" and any(o["verifies"].values()):
+                return i, lambda y: [y["obs"]["verifies"].__setitem__(k, False) for k in y["obs"]["verifies"]]
+        return None
+    src = next(((ep, pick(ep)) for ep in weps if pick(ep) is not None), None)
+    if src is None:
+        raise ToolError(f"walks: no episode suitable for the {mode} canary")
+    ep, (i, mut) = src
+    wc = copy.deepcopy(ep[: i + 1])
+    mut(wc[-1])
+    for k, x in enumerate(wc):
+        x["id"] = max(wid) + 1 + k
+    write_ndjson(wtr, wc + wev)
+    wv = vlib.validate_trace("Trace_Rpm", f"Trace_Rpm_{mode}.cfg", ck.scratch, wtr, shards=4)
+    ck.add_validation(wv, traces=len(weps))
+    wrej = ck.expect_canary(wv["rejects"], [wc[-1]["id"]])
+    add_rejects(ck, wrej, wid, lambda e, r: f"Walk:{e.get('walk')}:{e.get('step')}:{e.get('op')}:{r.get('why')}" if e else "?")
+    ck.extra.update(lifecycle_walks=len(weps), lifecycle_steps=sum(1 for e in wev if e["event"] == "Walk"))
+
+
 @prop("C02")
 def c02(ck):
     binary = vlib.build_harness()
@@ -656,6 +698,7 @@ def c02(ck):
             ep = by_case.get(e.get("case"), [e])
             shape = ep[0].get("shape")
             ck.violation(f"Verify:{json.dumps(shape, sort_keys=True)}", f"{e['event']} {e.get('result', '')}", ep)
+    lifecycle_walks(ck, binary, "C02", 400 if thorough else 40)
     begins = [e for e in events if e["event"] == "Begin" and e["id"] in by_id]
     rets = [e for e in events if e["event"] == "Return" and e["id"] in by_id]
     tams = [e for e in events if e["event"] == "Tampered" and e["id"] in by_id]
@@ -725,6 +768,7 @@ def c10(ck):
     ck.add_validation(v, traces=neps)
     rej = ck.expect_canary(v["rejects"], canaries)
     add_rejects(ck, rej, by_id, lambda e, r: f"{e.get('pkg')}:{e.get('path', 'start')}" if e else "?")
+    lifecycle_walks(ck, binary, "C10", 300 if thorough else 40)
     steps = [e for e in events if e["event"] == "Step" and e["id"] in by_id]
     ck.evaluations = len(steps)
     ck.nontrivial = len({(e["pkg"], e["path"]) for e in steps})
@@ -1056,6 +1100,7 @@ def c08(ck):
     ck.add_validation(v)
     rej = ck.expect_canary(v["rejects"], [c["id"]])
     add_rejects(ck, rej, hid, lambda e, r: f"HashRun:{e.get('mode')}:{e.get('split')}" if e else "?")
+    lifecycle_walks(ck, binary, "C08", 300 if thorough else 40)
     ck.evaluations = len(with_dig) * 3 + sum(len(e["files"]) for e in files if e.get("emitted")) + len(hv)
     ck.nontrivial = len({e["dig"]["payload"]["calc"] for e in with_dig}) + len({f["digest"] for e in files for f in e["files"]}) + len({(e["mode"], e["split"]) for e in hv})
     ck.extra.update(packages_with_three_digests=len(with_dig), file_digests=sum(len(e["files"]) for e in files if e.get("emitted")),
